@@ -174,7 +174,9 @@ def m2_rows(run, project):
            f"value string formats `{norm(resolve(vm['M_x']))}`", module=mod, node=joins[0][0], func="pretty_attrs",
            construct="pretty_attrs value source")
     w1, w2 = resolve(mm["M_w"]), resolve(vm["M_w"])
-    wm = match(w1, "M_s * 8") or match(w1, "8 * M_s")
+    wm = match(w1, "M_s * 8")
+    if wm is None:
+        wm = match(w1, "8 * M_s")
     okw = norm(w1) == norm(w2) and wm is not None and norm(resolve(wm["M_s"])) == f"{ev}.value._int_size"
     run.ob("M2", okw, "both strings padded to 8*_int_size bits",
            f"padding widths are `{norm(w1)}` / `{norm(w2)}`", module=mod, node=joins[0][0], func="pretty_attrs",
